@@ -274,7 +274,7 @@ Theorem sim_step : forall s a o, R s a -> exists a', step01 a a' /\ R (fst (gste
 Proof.
   intros s a o HR.
   assert (Stay : exists a', step01 a a' /\ R s a') by (exists a; split; [left; reflexivity|exact HR]).
-  destruct o as [i|i|i|i|i p ok|k ok|i]; cbn [gstep].
+  destruct o as [i|i|i|i|i p ok|k ok|i|i ok]; cbn [gstep].
   - (* GElect *)
     unfold valid_id. destruct (N.ltb_spec i (n_nodes cfg)) as [Hi|]; cbn [fst]; [|exact Stay].
     apply sim_timeout; auto.
@@ -393,6 +393,12 @@ Proof.
     unfold valid_id. destruct (N.ltb_spec i (n_nodes cfg)) as [Hi|]; cbn [fst]; [|exact Stay].
     pose proof (absn_old s a i HR Hi) as Hold. unfold old in Hold.
     apply sim_demote; auto; try (intros ? ? []); unfold old; rewrite Hold; cbn; auto.
+  - (* GTimeoutNow *)
+    unfold valid_id. destruct (N.ltb_spec i (n_nodes cfg)) as [Hi|]; cbn [fst]; [|exact Stay].
+    destruct ok; cbn [fst]; [|exact Stay].
+    apply sim_timeout; auto.
+    + unfold start_election, absn. cbn. rewrite (absn_old s a i HR Hi). cbn. f_equal. lia.
+    + intros d m0 [].
 Qed.
 
 
